@@ -63,6 +63,17 @@ class RefWF:
     def succs(self, t):
         return [n for n in self.nodes if (t, n) in self.edges]
 
+    def descendants(self, t):
+        out = set()
+        todo = [t]
+        while todo:
+            x = todo.pop()
+            for s2 in self.succs(x):
+                if s2 not in out:
+                    out.add(s2)
+                    todo.append(s2)
+        return out
+
     # ---- builder operations -------------------------------------------------------------
     def _add_node(self, t):
         if t not in self.nodes:
@@ -291,6 +302,17 @@ def plan(spec) -> Plan:
             decl.append(ps)
         return sub, labels, decl
 
+    # optional: the builder is created as WorkflowBuilder(tasks=[...]) (absent key: empty builder)
+    init = spec.get('init', []) if isinstance(spec, dict) else []
+    init = init if isinstance(init, list) else []
+    if init:
+        labels = [new_task(ts) for ts in init[:3]]
+        for lab in labels:
+            ref.add_task(lab)
+        P.steps.append(dict(op='init', labels=labels))
+        P.snaps.append(ref.copy())
+        P.classes.add('init_tasks')
+
     ops = spec.get('ops', []) if isinstance(spec, dict) else []
     for op in list(ops)[:10]:
         if not isinstance(op, dict):
@@ -301,9 +323,34 @@ def plan(spec) -> Plan:
             if room() < 1:
                 continue
             preds = pick(op.get('p', []))
+            fresh = op.get('fresh', 1)
+            fresh = fresh if isinstance(fresh, int) else 1
             lab = new_task(op.get('t'))
+            if fresh % 3 == 0 and room() >= 2:
+                # a predecessor that is not yet in the builder: it enters through the edge
+                # (after the added task) and can be given its own predecessors later
+                q = new_task(op.get('ft'))
+                preds = preds[: (fresh // 3) % (len(preds) + 1)] + [q] + preds[(fresh // 3) % (len(preds) + 1) :]
+                P.classes.add('fresh_predecessor')
             ref.add_task(lab, preds)
             step = dict(op='add', task=lab, preds=preds, single=bool(op.get('single')) and len(preds) == 1)
+        elif o == 'link':
+            # add_task on a task that is ALREADY in the builder, declaring (more) predecessors
+            if not ref.nodes:
+                continue
+            i = op.get('i', 0)
+            lab = ref.nodes[(i if isinstance(i, int) else 0) % len(ref.nodes)]
+            banned = ref.descendants(lab) | {lab}  # keeps the graph acyclic
+            preds = [x for x in pick(op.get('p', [])) if x not in banned]
+            if not any((x, lab) not in ref.edges for x in preds):
+                extra = [n for n in ref.nodes if n not in banned and (n, lab) not in ref.edges]
+                preds = preds + extra[:1]
+            new_edges = [x for x in preds if (x, lab) not in ref.edges]
+            ref.add_task(lab, preds)
+            step = dict(op='add', task=lab, preds=preds, single=bool(op.get('single')) and len(preds) == 1, existing=True)
+            P.classes.add('add_task_existing' if new_edges else 'add_task_existing_noop')
+            if new_edges and len(ref.preds(lab)) > len(new_edges):
+                P.classes.add('add_task_existing_second_call')
         elif o in ('ins', 'plus'):
             if room() < 1:
                 continue
@@ -397,7 +444,10 @@ def replay(P: Plan, inplace: bool, upto=None):
     r = RefWF(inplace=inplace)
     steps = P.steps if upto is None else P.steps[:upto]
     for s in steps:
-        if s['op'] == 'add':
+        if s['op'] == 'init':
+            for lab in s['labels']:
+                r.add_task(lab)
+        elif s['op'] == 'add':
             r.add_task(s['task'], s['preds'])
         elif s['op'] in ('ins', 'plus'):
             sub = RefWF()
